@@ -3463,11 +3463,15 @@ static int add_globals (hawk_t* hawk)
 {
 	xtn_t* xtn = GET_XTN(hawk);
 
+	/* stop at the first failure. a later successful call overwrites the error information of an earlier failure */
 	xtn->gbl_argc = hawk_addgblwithoocstr(hawk, HAWK_T("ARGC"));
+	if (HAWK_UNLIKELY(xtn->gbl_argc <= -1)) return -1;
 	xtn->gbl_argv = hawk_addgblwithoocstr(hawk, HAWK_T("ARGV"));
+	if (HAWK_UNLIKELY(xtn->gbl_argv <= -1)) return -1;
 	xtn->gbl_environ = hawk_addgblwithoocstr(hawk, HAWK_T("ENVIRON"));
+	if (HAWK_UNLIKELY(xtn->gbl_environ <= -1)) return -1;
 
-	return (HAWK_UNLIKELY(xtn->gbl_argc <= -1 || xtn->gbl_argv <= -1 || xtn->gbl_environ <= -1))? -1: 0;
+	return 0;
 }
 
 struct fnctab_t
